@@ -98,7 +98,73 @@ func (g *c09Gen) size() int {
 }
 
 // nextSet: the list an epoch header announces, relative to the current one.
+// nextSet: the list an epoch header (or a create / upgrade head) carries. One time in three the base list gets an
+// unusual but well-formed shape: a zero-address entry, an 0xff..ff entry, a duplicate of a listed validator, ascending /
+// descending order, or several of these. Such entries are validators like any other (they just cannot seal).
 func (g *c09Gen) nextSet(cur []common.Address) []common.Address {
+	out := append([]common.Address{}, g.nextSetBase(cur)...)
+	if len(out) == 0 || g.r.Rng.Intn(3) != 0 {
+		return out
+	}
+	ins := func(a common.Address) {
+		if len(out) >= 21 {
+			out = out[:20]
+		}
+		i := g.r.Rng.Intn(len(out) + 1)
+		out = append(out[:i], append([]common.Address{a}, out[i:]...)...)
+	}
+	var ones common.Address
+	for i := range ones {
+		ones[i] = 0xff
+	}
+	k := 1 + g.r.Rng.Intn(2)
+	for j := 0; j < k; j++ {
+		switch g.r.Rng.Intn(6) {
+		case 0:
+			ins(common.Address{})
+		case 1:
+			ins(ones)
+		case 2:
+			ins(out[g.r.Rng.Intn(len(out))])
+		case 3:
+			out = c09Sorted(c09AddrSet(out))
+		case 4:
+			s := c09Sorted(c09AddrSet(out))
+			for i, j := 0, len(s)-1; i < j; i, j = i+1, j-1 {
+				s[i], s[j] = s[j], s[i]
+			}
+			out = s
+		default:
+			ins(common.Address{})
+			ins(out[g.r.Rng.Intn(len(out))])
+		}
+	}
+	return out
+}
+
+// keyed: a member of the list the generator can seal for
+func (g *c09Gen) keyed(vs []common.Address) common.Address {
+	var c []common.Address
+	for _, a := range vs {
+		if _, ok := g.keyOf[a]; ok {
+			c = append(c, a)
+		}
+	}
+	if len(c) == 0 {
+		return vs[0]
+	}
+	return c[g.r.Rng.Intn(len(c))]
+}
+
+func c09AddrSet(as []common.Address) map[common.Address]bool {
+	m := map[common.Address]bool{}
+	for _, a := range as {
+		m[a] = true
+	}
+	return m
+}
+
+func (g *c09Gen) nextSetBase(cur []common.Address) []common.Address {
 	if g.handover {
 		other := func(n int) []common.Address { // n validators, none of them in cur
 			var out []common.Address
@@ -394,6 +460,14 @@ func (g *c09Gen) history(p c09Plan) {
 	g.epoch, g.tp, g.btStep, g.oldTime, g.fresh, g.handover = p.epoch, p.tp, p.btStep, p.oldTime, p.fresh, p.handover
 	g.bt = 1_700_000_000
 	vals := g.subset(p.n0)
+	if r.Rng.Intn(8) == 0 { // the validators named at creation contain a zero address / a duplicate
+		if r.Rng.Intn(2) == 0 {
+			vals = append(vals, common.Address{})
+		} else {
+			vals = append(vals, vals[r.Rng.Intn(len(vals))])
+		}
+		r.Count("oddlist.create-vals")
+	}
 	start := p.startK * p.epoch
 	// the head is an epoch header; it carries the pending list
 	pend := g.nextSet(vals)
@@ -405,7 +479,7 @@ func (g *c09Gen) history(p c09Plan) {
 		extra = append(extra, a.Bytes()...)
 	}
 	extra = append(extra, make([]byte, 65)...)
-	sealer := vals[r.Rng.Intn(len(vals))]
+	sealer := g.keyed(vals)
 	head := &bsctypes.Header{
 		Height: clienttypes.NewHeight(p.rev, start), ParentHash: g.rnd(32), UncleHash: c09UncleHash.Bytes(), Coinbase: sealer.Bytes(),
 		Root: g.rnd(32), TxHash: g.rnd(32), ReceiptHash: g.rnd(32), Difficulty: []byte{2},
@@ -470,6 +544,9 @@ func (g *c09Gen) history(p c09Plan) {
 		}
 		// ---- invalid / boundary signer attempts first (each is its own op; rejected ones leave no trace)
 		attempt := func(kind string, signer common.Address) bool {
+			if _, hasKey := g.keyOf[signer]; !hasKey {
+				return false
+			}
 			h := g.build(cs, signer, next)
 			g.seal(h, signer)
 			out := g.emit(c09UpdateOp(g.bt, g.chainID, h))
@@ -590,7 +667,9 @@ func (g *c09Gen) history(p c09Plan) {
 		var elig []common.Address
 		for _, a := range set {
 			if _, in := recent(a, n/2); !in {
-				elig = append(elig, a)
+				if _, hasKey := g.keyOf[a]; hasKey { // (the zero address / 0xff..ff are validators that cannot seal)
+					elig = append(elig, a)
+				}
 			}
 		}
 		if len(elig) == 0 {
@@ -600,7 +679,9 @@ func (g *c09Gen) history(p c09Plan) {
 		signer := elig[r.Rng.Intn(len(elig))]
 		inturn := set[num%uint64(n)]
 		if _, in := recent(inturn, n/2); !in && r.Rng.Intn(4) > 0 {
-			signer = inturn
+			if _, hasKey := g.keyOf[inturn]; hasKey {
+				signer = inturn
+			}
 		}
 		newcomer := false
 		if len(g.w.prevVals) > 0 && num-g.w.switchAt <= 3 { // right after a switch: a validator the old set did not have
@@ -972,6 +1053,21 @@ func (g *c09Gen) allDirected() {
 		{bt: 112, signer: k[1], time: 112, next: k[3:8]},
 		{bt: 115, signer: k[2], time: 115, restart: true},
 		{bt: 118, signer: k[3], time: 118}, {bt: 121, signer: k[4], time: 121, restart: true}, {bt: 124, signer: k[5], time: 124, next: k[3:8]}})
+	// a carried list with a zero-address entry: epoch 10, {k0,k1,k2} at 10, epoch header 20 carries [0x0,k0,k1,k2]; from the
+	// switch at 21 on N = 4 (window 2): block 24 by the sealer of 22 is refused, by the sealer of 21 accepted
+	{
+		st := []c09Step{}
+		rot := []common.Address{k[1], k[2], k[0]}
+		for i := 0; i < 9; i++ {
+			st = append(st, c09Step{bt: uint64(103 + 3*i), signer: rot[i%3], time: uint64(103 + 3*i)})
+		}
+		st = append(st,
+			c09Step{bt: 130, signer: k[1], time: 130, next: []common.Address{{}, k[0], k[1], k[2]}},
+			c09Step{bt: 133, signer: k[2], time: 133},
+			c09Step{bt: 136, signer: k[0], time: 136}, c09Step{bt: 139, signer: k[1], time: 139},
+			c09Step{bt: 142, signer: k[0], time: 142, reject: true}, c09Step{bt: 142, signer: k[2], time: 142})
+		g.directed("list-with-zero-address", 10, 999_999_999, 10, k[:3], k[0], 100, st)
+	}
 	// single validator handing over to a different single validator: the epoch header is itself the switch point
 	g.directed("handover-1to1", 4, 999_999_999, 4, k[:1], k[0], 100, []c09Step{
 		{bt: 103, signer: k[0], time: 103}, {bt: 106, signer: k[0], time: 106}, {bt: 109, signer: k[0], time: 109},
@@ -1071,7 +1167,7 @@ func (g *c09Gen) twin(n0 int, epoch uint64, startK uint64, steps int) {
 		extra = append(extra, a.Bytes()...)
 	}
 	extra = append(extra, make([]byte, 65)...)
-	sealer := vals[r.Rng.Intn(len(vals))]
+	sealer := g.keyed(vals)
 	head := &bsctypes.Header{
 		Height: clienttypes.NewHeight(0, start), ParentHash: g.rnd(32), UncleHash: c09UncleHash.Bytes(), Coinbase: sealer.Bytes(),
 		Root: g.rnd(32), TxHash: g.rnd(32), ReceiptHash: g.rnd(32), Difficulty: []byte{2}, GasLimit: 30_000_000, GasUsed: 21000, Time: g.bt - 10,
@@ -1300,7 +1396,7 @@ func (g *c09Gen) reorg(n0 int, epoch uint64, startK uint64) {
 			extra = append(extra, a.Bytes()...)
 		}
 		extra = append(extra, make([]byte, 65)...)
-		sealer := vs[r.Rng.Intn(len(vs))]
+		sealer := g.keyed(vs)
 		h := &bsctypes.Header{
 			Height: clienttypes.NewHeight(0, num), ParentHash: g.rnd(32), UncleHash: c09UncleHash.Bytes(), Coinbase: sealer.Bytes(),
 			Root: g.rnd(32), TxHash: g.rnd(32), ReceiptHash: g.rnd(32), Difficulty: []byte{2}, GasLimit: 30_000_000, GasUsed: 21000, Time: g.bt - 5,
@@ -1366,6 +1462,9 @@ func (g *c09Gen) reorg(n0 int, epoch uint64, startK uint64) {
 		}
 		if start >= epoch && r.Rng.Intn(4) == 0 {
 			cands = append(cands, start-epoch) // below everything tracked
+		}
+		if len(cands) == 0 { // (an earlier round went below `start` and branch B has not come back up to it yet)
+			cands = append(cands, headNum/epoch*epoch)
 		}
 		u := cands[r.Rng.Intn(len(cands))]
 		var nh *bsctypes.Header
@@ -1464,16 +1563,16 @@ func (g *c09Gen) boundary(b c09Boundary) {
 	g.chainID, g.epoch, g.tp, g.btStep, g.oldTime, g.fresh, g.handover = b.chainID, b.epoch, 999_999_999, 3, false, false, false
 	g.bt = 1_700_000_000
 	vals := g.subset(b.n0)
-	pend := vals
-	if b.next != nil {
-		pend = b.next(vals)
+	if b.next == nil { // the classes that are not about lists keep announcing the list in force (stable floors)
+		b.next = func(cur []common.Address) []common.Address { return cur }
 	}
+	pend := b.next(vals)
 	extra := g.rnd(32)
 	for _, a := range pend {
 		extra = append(extra, a.Bytes()...)
 	}
 	extra = append(extra, make([]byte, 65)...)
-	sealer := vals[r.Rng.Intn(len(vals))]
+	sealer := g.keyed(vals)
 	head := &bsctypes.Header{
 		Height: clienttypes.NewHeight(b.rev, b.start), ParentHash: g.rnd(32), UncleHash: c09UncleHash.Bytes(), Coinbase: sealer.Bytes(),
 		Root: g.rnd(32), TxHash: g.rnd(32), ReceiptHash: g.rnd(32), Difficulty: []byte{2}, GasLimit: 30_000_000, GasUsed: 21000, Time: g.bt - 5,
